@@ -164,8 +164,10 @@ def write_replay(pid, payload):
 
 
 def write_evidence(pid, ev):
-    os.makedirs(os.path.join(VERIF, "evidence"), exist_ok=True)
-    path = os.path.join(VERIF, "evidence", pid + ".json")
+    # a trial against a scratch worktree (PFDL_REPO set) must not overwrite the evidence
+    sub = "evidence" if REPO == "/repo" else os.path.join("work", "evidence-trial")
+    os.makedirs(os.path.join(VERIF, sub), exist_ok=True)
+    path = os.path.join(VERIF, sub, pid + ".json")
     with open(path, "w") as f:
         json.dump(enc(ev), f, indent=1, sort_keys=True)
     return path
